@@ -278,6 +278,7 @@ func runC13(cs c13Case) (cr caseResult) {
 	done := false
 	pong := ""
 	served := false
+	tourDone, tourStep, tourBad := false, "", ""
 	s := verifrt.NewSched(nil)
 	s.Horizon = 3000000
 	s.Run(func() {
@@ -298,6 +299,14 @@ func runC13(cs c13Case) (cr caseResult) {
 		// ... and a command that needs the database the first connection has just used
 		other.Do("SET", "probe", "1")
 		served = string(other.Do("GET", "probe")) == "$1\r\n1\r\n"
+		// ... and a tour of everything the command may have left behind: whatever is in the key space now
+		// can be read, walked and picked from at random without stalling (a refused command that leaves an
+		// empty collection behind makes the random pick spin for ever, with the database locked)
+		if served {
+			tourStep = "KEYS *"
+			tourBad = c13Tour(other, &tourStep)
+			tourDone = true
+		}
 	})
 	viol := func(sig, detail string) caseResult {
 		return caseResult{Status: "violation", Sig: sig + "|" + c13Class(cs), Detail: name + ": " + detail, Trace: cs.args, Units: 1}
@@ -306,7 +315,13 @@ func runC13(cs c13Case) (cr caseResult) {
 	case verifrt.TermPanic:
 		msg := firstLine(fmt.Sprint(s.PanicVal))
 		if strings.Contains(msg, "budget exhausted") {
+			if tourStep != "" {
+				return viol("hang-afterwards@"+panicSite(s.PanicStk), "afterwards "+tourStep+" never returns: "+msg)
+			}
 			return viol("hang@"+panicSite(s.PanicStk), "unbounded loop: "+msg)
+		}
+		if tourStep != "" {
+			return viol("panic-afterwards@"+panicSite(s.PanicStk), "afterwards "+tourStep+" panics (the process would die): "+msg)
 		}
 		return viol("panic@"+panicSite(s.PanicStk), "panic (the process would die): "+msg)
 	case verifrt.TermHorizon:
@@ -317,6 +332,12 @@ func runC13(cs c13Case) (cr caseResult) {
 	}
 	if !served {
 		return viol("other-client-stalled", fmt.Sprintf("afterwards a second connection's SET/GET on the same database does not complete (terminal %s): the command left the database locked", s.Term))
+	}
+	if served && !tourDone {
+		return viol("stalled-afterwards", fmt.Sprintf("afterwards %s does not return (terminal %s)", tourStep, s.Term))
+	}
+	if tourBad != "" {
+		return viol("malformed-reply-afterwards", tourBad)
 	}
 	if !done {
 		if blockingCmds[strings.ToUpper(cs.args[0])] {
@@ -376,5 +397,50 @@ func runC13Bytes(c c13Case) (cr caseResult) {
 	}
 	cr.Status = "ok"
 	cr.Nontrivial = len(r.out) > 0
+	return
+}
+
+// c13Tour reads everything that is in the selected database through a second connection: every key
+// by the commands of its type, including the ones that pick at random; step names the command
+// that is running (for the report when it never returns).
+func c13Tour(cl *redisemu.VClient, step *string) (bad string) {
+	do := func(args ...string) vm.Reply {
+		*step = strings.Join(quoteArgs(args), " ")
+		raw := cl.Do(args...)
+		r, err := vm.Parse1(raw)
+		if err != nil && bad == "" {
+			bad = fmt.Sprintf("afterwards %s answers %q: %v", *step, clipB(raw), err)
+		}
+		return r
+	}
+	keys := do("KEYS", "*")
+	do("DBSIZE")
+	do("RANDOMKEY")
+	do("SCAN", "0", "COUNT", "100")
+	for _, e := range keys.A {
+		k := e.S
+		switch do("TYPE", k).S {
+		case "string":
+			do("GET", k)
+			do("STRLEN", k)
+		case "list":
+			do("LRANGE", k, "0", "-1")
+			do("LLEN", k)
+		case "hash":
+			do("HGETALL", k)
+			do("HRANDFIELD", k)
+			do("HRANDFIELD", k, "-2", "WITHVALUES")
+			do("HRANDFIELD", k, "2")
+			do("HSCAN", k, "0")
+		case "set":
+			do("SMEMBERS", k)
+			do("SRANDMEMBER", k)
+			do("SRANDMEMBER", k, "-2")
+			do("SRANDMEMBER", k, "2")
+			do("SSCAN", k, "0")
+		}
+		do("PTTL", k)
+	}
+	*step = ""
 	return
 }
